@@ -489,6 +489,18 @@ def gen_gattr_program(rng, same_line=False, with_defaults_case=True):
     main_lines = lines
     merged = len(lines)          # position in the merged (preprocessed) text, up to a constant: program order
     split_files = (not same_line) and rng.random() < 0.4
+    # scaled numbers: `500m` / `500M` is 500 units on an em of MUnits, converted to the font's design units (1000 here)
+    munits = rng.choice([None, None, 1000, 2000, 2048, 500, 1500])
+
+    def f32(x):
+        import struct as _st
+        return _st.unpack("f", _st.pack("f", x))[0]
+
+    def scaled(v):
+        # GrcFont::ScaledToAbsolute: (float)v * upem / (float)MUnits + 0.5f, truncated
+        # (a negative number is the negation of the scaled positive literal)
+        a = int(f32(f32(f32(float(abs(v))) * 1000) / f32(float(munits))) + f32(0.5))
+        return -a if v < 0 else a
     for _b in range(rng.randint(1, 5)):
         ov = rng.random() < 0.6
         if split_files and rng.random() < 0.6:
@@ -500,7 +512,7 @@ def gen_gattr_program(rng, same_line=False, with_defaults_case=True):
             merged += 2
         else:
             lines = main_lines
-        lines.append("environment {AttributeOverride = %s};" % ("true" if ov else "false"))
+        lines.append("environment {AttributeOverride = %s%s};" % ("true" if ov else "false", "; MUnits = %d" % munits if munits else ""))
         lines.append("table(glyph)")
         merged += 2
         for _s in range(rng.randint(1, 5)):
@@ -518,16 +530,22 @@ def gen_gattr_program(rng, same_line=False, with_defaults_case=True):
                         continue
                     used.add(j)
                     v = rng.choice([0, 1, 5, 9, 17, 255, 256, -1, -300, 32767, -32767, rng.randint(-2000, 2000)])
+                    if munits and abs(v) <= 4000 and rng.random() < 0.5:
+                        # written as a scaled number (either spelling of the suffix); stored in design units
+                        parts.append(("ua%d" % j, j, scaled(v), "%d%s" % (v, rng.choice("mM"))))
+                        continue
                     parts.append(("ua%d" % j, j, v))
             if not parts:
                 continue
+            def txt(pt):
+                return "%s = %s" % (pt[0], pt[3] if len(pt) > 3 else "%d" % pt[2])
             if same_line and lines[-1].startswith("c") and rng.random() < 0.5:
-                lines[-1] += " %s {%s};" % (cls, "; ".join("%s = %d" % (nm, v) for nm, _j, v in parts))
+                lines[-1] += " %s {%s};" % (cls, "; ".join(txt(pt) for pt in parts))
             else:
-                lines.append("%s {%s};" % (cls, "; ".join("%s = %d" % (nm, v) for nm, _j, v in parts)))
+                lines.append("%s {%s};" % (cls, "; ".join(txt(pt) for pt in parts)))
                 merged += 1
             ln = merged          # the "line" that decides which of two statements is the later one
-            for nm, j, v in parts:
+            for nm, j, v in [pt[:3] for pt in parts]:
                 assigns.append({"order": order, "line": ln, "override": ov, "cls": names.index(cls), "attr": j, "value": v})
                 order += 1
         lines.append("endtable;")
